@@ -8,7 +8,7 @@ import sys
 
 T = '''You are helping to evaluate a verification effort for the open-source Python library fox-it/flow.record (typed records, a msgpack-based record stream format, JSON/CSV/Avro/SQLite adapters, and the "rdump" selector query language). Your job is to play the role of a developer who makes a plausible but WRONG change to the library: a change that breaks one specific semantic property while everything still imports and the existing test suite still passes.
 
-Your own scratch git worktree of the repository is at {wt} . Work ONLY inside that directory (and /tmp/seedwork-{pid}-r{rnd} for temporary files, which you remove at the end). Do NOT touch /repo or /verif, do not read anything under /verif, and do not commit anything.
+Your own scratch git worktree of the repository is at {wt} . Work ONLY inside that directory (and /tmp/seedwork-{pid}-r{rnd} for temporary files, which you remove at the end). Do NOT touch /repo or /verif, do not read anything under /verif, and do not commit anything. Never use "git stash" (the stash is shared between worktrees of the same repository): to get back to the clean tree use "git -C {wt} checkout -- flow", to re-apply a change use "git apply".
 
 How to run code against your worktree (the library is installed elsewhere in editable mode, so you must put your worktree first on the path):
   cd {wt} && PYTHONPATH={wt} /venv/bin/python -c "import flow.record; print(flow.record.__file__)"     # must print a path under {wt}
